@@ -16,7 +16,11 @@ def filler(rng, words, kind):
     n = words
     while n > 0:
         k = kind if kind != 'mix' else rng.choice(['nop', 'lds', 'dw', 'db', 'db3'])
-        if k == 'lds' and n >= 2:
+        if k == 'tlds':
+            # reduced core (ATtiny20): lds/sts are ONE word
+            out.append(rng.choice(['lds r%d, 0x%x', 'sts 0x%x, r%d']) % ((rng.randrange(16, 32), rng.randrange(0x40, 0xc0)) if rng.random() < .5 else (rng.randrange(0x40, 0xc0), rng.randrange(16, 32))) if False else
+                       ('lds r%d, 0x%x' % (rng.randrange(16, 32), rng.randrange(0x40, 0xc0)) if rng.random() < .5 else 'sts 0x%x, r%d' % (rng.randrange(0x40, 0xc0), rng.randrange(16, 32)))); n -= 1
+        elif k == 'lds' and n >= 2:
             out.append('lds r%d, 0x%x' % (rng.randrange(32), rng.randrange(65536))); n -= 2
         elif k == 'dw':
             out.append('.dw 0x%x' % rng.randrange(65536)); n -= 1
@@ -43,6 +47,10 @@ def cases(tier, seed):
             kind = rng.choice(['nop', 'mix', 'mix', 'lds', 'dw', 'db', 'org'])
             start = rng.choice([0, 0, 1, 5, 300])
             head = filler(rng, start, 'mix')
+            tiny = lim == 64 and rng.random() < .2
+            if tiny:
+                # the reduced core books ONE word for lds/sts: a label after them must still be where the bytes are
+                kind = 'tlds'; start = rng.choice([0, 1, 5]); head = ['.device ATtiny20'] + filler(rng, start, 'tlds')
             if d >= 0:   # forward label
                 if kind == 'org':
                     body = ['.org %d' % (start + 1 + d)]
@@ -66,7 +74,12 @@ def cases(tier, seed):
             # pc-relative spelling of the same distance
             if rng.random() < 0.5:
                 expr = 'pc+%d' % (d + 1) if d + 1 >= 0 else 'pc-%d' % (-(d + 1))
-                lines = head + ['%s %s%s' % (mn, pre, expr.upper() if rng.random() < .3 else expr)]
+                # the instruction in the middle of a section, or as the FIRST instruction of a section that does
+                # not start at 0 (after .org, or after coming back from .dseg): pc must be that address
+                h2 = head
+                if not tiny and start > 0 and rng.random() < .5:
+                    h2 = rng.choice([['.org %d' % start], head + ['.dseg', '.byte 2', '.cseg'], ['.dseg', 'v_c03: .byte 1', '.cseg', '.org %d' % start]])
+                lines = h2 + ['%s %s%s' % (mn, pre, expr.upper() if rng.random() < .3 else expr)]
                 out.append((mn, '\n'.join(lines), start, pretok + ['v%d' % (start + 1 + d)], d))
     # far targets: a distance that only fits after wrapping through 16 bits must be rejected
     for mn, lim in mns:
@@ -115,7 +128,7 @@ def run(tier, seed, model_ok):
             vio.append({'what': 'oracle could not judge (harness bug)', 'source': c[1], 'impl': a[:100], 'expected': s, 'key': c[0]})
     return {
         'evaluations': len(cs), 'distinct_nontrivial': len({c[1] for c in cs}),
-        'rule': 'all 18 named branches + brbs/brbc + rjmp + rcall x distances within 70 of each range limit on both sides and around zero (rjmp/rcall thinned in the quick tier away from the limits), forward/backward labels with random filler (1- and 2-word instructions, .dw, odd .db lines, .org gaps) at random start addresses, and pc-relative expressions; far targets (distances of 64 Ki, 128 Ki words and other values that fit only after wrapping) through pc expressions and .org gaps; distinct = distinct programs',
+        'rule': 'all 18 named branches + brbs/brbc + rjmp + rcall x distances within 70 of each range limit on both sides and around zero (rjmp/rcall thinned in the quick tier away from the limits), forward/backward labels with random filler (1- and 2-word instructions, .dw, odd .db lines, .org gaps; on ATtiny20 one-word lds/sts) at random start addresses, and pc-relative expressions in the middle of a section and as the first instruction after .org / after returning from .dseg; far targets (distances of 64 Ki, 128 Ki words and other values that fit only after wrapping) through pc expressions and .org gaps; distinct = distinct programs',
         'samples': [cs[0][1], cs[len(cs) // 2][1]],
         'exhaustive': False,
         'distribution': {'reachable_targets': accepted, 'unreachable_targets': rejected, 'per_mnemonic': Counter(c[0] for c in cs).most_common(4)},
